@@ -38,7 +38,7 @@ SCOPES = FN + (ast.ClassDef, ast.Lambda, ast.ListComp, ast.SetComp,
 PURE_CALLS = {'str', 'int', 'bool', 'float', 'len', 'set', 'list', 'tuple',
               'dict', 'frozenset', 'sorted', 'min', 'max', 'isinstance',
               'repr', 'abs', 'any', 'all', 'sum', 'reversed', 'enumerate',
-              'zip', 'range', 'Path', 'quote'}
+              'zip', 'range', 'Path', 'quote', 'compile'}
 
 _REF = None
 
@@ -256,6 +256,40 @@ def _strip_doc(body):
     return body
 
 
+def _tail_return(stmts):
+    """The `return` in tail position of a block whose every other exit
+    raises, or None: last statement is the return, or a try (no else /
+    finally) whose body ends that way and whose handlers all end in raise,
+    or a `with` whose body ends that way."""
+    if not stmts:
+        return None
+    last = stmts[-1]
+    if isinstance(last, ast.Return) and last.value is not None:
+        return last
+    if isinstance(last, ast.Try) and not last.orelse and not last.finalbody \
+            and all(h.body and isinstance(h.body[-1], ast.Raise)
+                    for h in last.handlers):
+        return _tail_return(last.body)
+    if isinstance(last, (ast.With, ast.AsyncWith)):
+        return _tail_return(last.body)
+    return None
+
+
+def _replace_stmt(stmts, old, new) -> bool:
+    for i, s in enumerate(stmts):
+        if s is old:
+            stmts[i] = new
+            return True
+        for field in ('body', 'orelse', 'finalbody'):
+            blk = getattr(s, field, None)
+            if isinstance(blk, list) and _replace_stmt(blk, old, new):
+                return True
+        for h in getattr(s, 'handlers', []) or []:
+            if _replace_stmt(h.body, old, new):
+                return True
+    return False
+
+
 def _as_expr(stmts):
     """The single expression a body of `return`s denotes, or None:
     [return e] -> e;  [if c: A (else: B)] + rest -> (A if c else B+rest)."""
@@ -321,6 +355,11 @@ class _Helper:
             return False
         if len(rets) == 1 and rets[0] is body[-1]:
             self.kind = 'value'
+            return True
+        if len(rets) == 1 and _tail_return(body) is rets[0]:
+            # `try: return e / except X: raise ...` as the last statement:
+            # the return is in tail position and every other way out raises
+            self.kind = 'tail'
             return True
         return False
 
@@ -436,6 +475,18 @@ def _expand(helper: _Helper, binding: dict, caller_names: set, tag: str,
     elif helper.kind == 'value':
         value = body[-1].value
         body = body[:-1]
+    elif helper.kind == 'tail':
+        # the site statement takes the place of the tail `return e`
+        ret = _tail_return(body)
+        if isinstance(site, ast.Return):
+            new = ast.Return(value=ret.value)
+        elif isinstance(site, ast.Expr):
+            new = ast.Expr(value=ret.value)
+        else:
+            new = copy.copy(site)
+            new.value = ret.value
+        ast.copy_location(new, ret)
+        _replace_stmt(body, ret, new)
     elif body and isinstance(body[-1], ast.Return):
         body = body[:-1]
     for s in prefix + body:
@@ -535,8 +586,11 @@ class _Inliner:
                 call = self._call_of(s.value)
                 m = self._match(call, cls) if call is not None else None
                 if m is not None and m[0].ok and m[0].kind in (
-                        'stmt', 'value') and (
-                        isinstance(s, ast.Expr) or m[0].kind == 'value'):
+                        'stmt', 'value', 'tail') and (
+                        isinstance(s, ast.Expr)
+                        or m[0].kind in ('value', 'tail')) and not (
+                        m[0].kind == 'tail' and isinstance(
+                            s.value, ast.Await)):
                     h, recv = m
                     is_await = isinstance(s.value, ast.Await)
                     if is_await == isinstance(h.node, ast.AsyncFunctionDef):
@@ -567,7 +621,14 @@ class _Inliner:
 
     def _descend(self, s, cls, caller_names, fnode):
         """Inline expression helpers inside s; recurse into its blocks."""
-        if isinstance(s, FN + (ast.ClassDef,)):
+        if isinstance(s, FN):
+            # a nested function has call sites of its own
+            if not any(h.node is s for h in self.helpers.values()):
+                inner_names = _names(s) | {a.arg for a in ast.walk(s)
+                                           if isinstance(a, ast.arg)}
+                self._block(s, 'body', cls, inner_names | caller_names, s)
+            return
+        if isinstance(s, ast.ClassDef):
             return
         for field in ('body', 'orelse', 'finalbody'):
             if isinstance(getattr(s, field, None), list) and getattr(
@@ -670,6 +731,16 @@ def _t1_inline(rel, tree, ref_funcs, all_trees, notes):
                         funcs[ch.name] = _Helper(q, ch, cls)
                     elif q in ref_funcs:
                         funcs.setdefault(ch.name, None)
+                    # a new local closure defined directly in the body of a
+                    # function: called by its bare name inside that function
+                    for g in ch.body:
+                        if isinstance(g, FN) and f'{q}.{g.name}' not in \
+                                ref_funcs:
+                            if g.name in funcs:
+                                dup.add(g.name)
+                            h = _Helper(f'{q}.{g.name}', g, None)
+                            h.container = ch     # (its body list is rebuilt)
+                            funcs[g.name] = h
                 elif isinstance(ch, ast.ClassDef) and not quals:
                     visit(ch, [ch.name], ch)
         visit(tree, [], None)
@@ -693,7 +764,9 @@ def _t1_inline(rel, tree, ref_funcs, all_trees, notes):
             progress = True
             # any reference left (outside the def itself)?
             left = _refs(tree, n) - _refs(h.node, n)
-            where = h.cls.body if h.cls is not None else tree.body
+            outer = getattr(h, 'container', None)
+            where = outer.body if outer is not None else (
+                h.cls.body if h.cls is not None else tree.body)
             if left == 0 and h.node in where:
                 where.remove(h.node)
                 if not where:
@@ -974,9 +1047,26 @@ def _self_closure_stores(tree, cls, span, attrs: set) -> bool:
                     todo_cls.append(n)
 
     def stores(nodes):
-        return any(isinstance(n, ast.Attribute) and isinstance(
-            n.ctx, (ast.Store, ast.Del)) and n.attr in attrs
-            for st in nodes for n in ast.walk(st))
+        for st in nodes:
+            for n in ast.walk(st):
+                if isinstance(n, ast.Attribute) and isinstance(
+                        n.ctx, (ast.Store, ast.Del)) and n.attr in attrs:
+                    return True
+                # `self.d[k] = v` / `del self.d[k]` re-bind an entry of d
+                if isinstance(n, ast.Subscript) and isinstance(
+                        n.ctx, (ast.Store, ast.Del)) and isinstance(
+                        n.value, ast.Attribute) and n.value.attr in attrs:
+                    return True
+                # so do the mutating container methods
+                if isinstance(n, ast.Call) and isinstance(
+                        n.func, ast.Attribute) and n.func.attr in (
+                        'pop', 'popitem', 'clear', 'update', 'setdefault',
+                        'remove', 'discard', 'insert', 'append', 'extend',
+                        'add') and isinstance(
+                        n.func.value, ast.Attribute) and \
+                        n.func.value.attr in attrs:
+                    return True
+        return False
     if stores(span):
         return True
     seen = set()
@@ -1101,11 +1191,16 @@ def _propagate_one(rel, q, f, name, notes, tree=None):
             chain_only = all(isinstance(n, (
                 ast.Name, ast.Attribute, ast.Constant, ast.Call, ast.BoolOp,
                 ast.UnaryOp, ast.Compare, ast.BinOp, ast.IfExp, ast.boolop,
-                ast.unaryop, ast.cmpop, ast.operator, ast.expr_context))
+                ast.unaryop, ast.cmpop, ast.operator, ast.expr_context,
+                ast.Subscript))
                 for n in ast.walk(rhs))
             if not (pure and chain_only):
                 return
-            if rhs_attrs & _unstable_attrs(tree):
+            has_sub = any(isinstance(n, ast.Subscript)
+                          for n in ast.walk(rhs))
+            if has_sub or rhs_attrs & _unstable_attrs(tree):
+                # (a subscripted chain `self.d[k]` always goes this way: the
+                # entry can be re-bound by item assignment / dict methods)
                 # assigned somewhere in this module.  Accepted only for an
                 # alias rooted at `self` inside a class, when no method of
                 # that class reachable from the span through `self.m` (called
@@ -1114,10 +1209,16 @@ def _propagate_one(rel, q, f, name, notes, tree=None):
                 # A-alias (DESIGN 9.1a): calls on *other* objects do not
                 # re-bind attributes of `self` behind its back.
                 root = rhs
-                while isinstance(root, ast.Attribute):
+                while isinstance(root, (ast.Attribute, ast.Subscript)):
                     root = root.value
                 if not (isinstance(root, ast.Name) and root.id == 'self'):
                     return
+                # index expressions must be plain names / constants that are
+                # not re-bound in the span
+                for n in ast.walk(rhs):
+                    if isinstance(n, ast.Subscript) and not isinstance(
+                            n.slice, (ast.Name, ast.Constant)):
+                        return
                 cls = _class_of(tree, q)
                 if cls is None:
                     return
